@@ -28,9 +28,28 @@ def _init_worker():
         pass
 
 
+class TaskTimeout(Exception):
+    pass
+
+
+def _alarm(signum, frame):
+    raise TaskTimeout()
+
+
+# wall-clock budget of one task: a change to pySDC that makes a run loop for ever must end in a report, not in a check that never returns
+TASK_BUDGET_S = {'quick': 20 * 60, 'thorough': 90 * 60}
+
+
 def _worker(args):
     pid, tier, seed, task = args
     logging.disable(logging.CRITICAL)
+    import signal
+
+    try:
+        signal.signal(signal.SIGALRM, _alarm)
+        signal.alarm(int(os.environ.get('VERIF_TASK_BUDGET', '0') or 0) or TASK_BUDGET_S.get(tier, 20 * 60))  # (the variable is a development aid)
+    except Exception:
+        pass
     mod = importlib.import_module(f'harness.{pid.lower()}')
     rep = Report(pid, LEVELS.get(pid, 'other'), tier, seed)
     core.QS.__init__()
@@ -39,8 +58,15 @@ def _worker(args):
         mod.run_task(rep, task)
     except core.Inconclusive as e:
         rep.inconclusive.append({'name': str(task)[:120], 'why': f'Inconclusive: {e}'})
+    except TaskTimeout:
+        rep.inconclusive.append({'name': str(task)[:120], 'why': f'task exceeded its wall-clock budget of {TASK_BUDGET_S.get(tier)} s (the code under test may not terminate)'})
     except Exception:
         rep.error(f'task {str(task)[:160]} crashed: {traceback.format_exc()[-1500:]}')
+    finally:
+        try:
+            signal.alarm(0)
+        except Exception:
+            pass
     d = rep.export()
     d['task'] = str(task)[:160]
     d['task_wall'] = time.time() - t
